@@ -122,6 +122,10 @@ pub const PAYLOADS: &[&str] = &[
     "pv := \"x\"\nprint($\"\\\"${pv}\\\": \\n${pv + pv}\\x21 é${pv}\")\n",
     "for [pi, pe] in 3 .. 5 {\nprint([pi, pe])\n}\nfor pe in -2 .. 0 {\nprint(pe)\n}\n",
     "print(false && print(1) == null)\nprint(true || print(2) == null)\n",
+    "pv := [1, 2]\npw := pv[:]\npw[0] = 9\nprint(pv)\nprint(pv === pw)\npg := pv[0:2]\npg[1] = 8\nprint(pv)\npe := pv + []\npe[0] = 7\nprint(pv)\n",
+    "pv := {\"a\": [1]}\npw := {pv..}\npw.b = 2\npw.a[0] = 5\nprint(pv)\nprint(pw)\n",
+    "pv := \"s\"\npi := 0\nwhile $\"${pv}\" == \"s\" && pi < 3 {\npi += 1\nif pi == 2 {\npv = \"t\"\n}\n}\nprint(pi)\n",
+    "fn pf() {\npi := 0\nwhile true {\npi += 1\nif pi < 3 {\ncontinue\n} else {\nbreak\n}\n}\nreturn pi\n}\nprint(pf())\n",
 ];
 
 fn rename(p: &str) -> String {
